@@ -37,6 +37,7 @@ sh('git checkout -- src; rm -rf _b ' + (demo_bin or ''))
 r = subprocess.run([sys.executable, os.path.join(VERIF, 'tools', 'mutant_eval.py'), diff, pid] + extra, stdout=subprocess.PIPE, stderr=subprocess.STDOUT, text=True)
 res['checks'] = r.stdout.strip().split('\n')
 res['caught_by'] = sorted(set(re.findall(r'VIOLATION property=(\w+)', r.stdout)))
+res['caught_with_concrete_input'] = any('VIOLATION' in l and 'no-failing-input-found' not in l for l in r.stdout.split('\n'))
 # keep the first replay of each catching check as an example
 dst = os.path.join(VERIF, 'seeded', '%s_%s%s' % (pid, os.environ.get('SEED_TAG', ''), n))
 os.makedirs(dst, exist_ok=True)
